@@ -459,6 +459,11 @@ func (t *SymbolTable) GetOpt(s Strings) grammar.NonTerminal {
 
 	e, ok := t.strings.table.Get(s)
 	if ok {
+		// The entry may have been created for another construct over the same strings (e.g. a group).
+		if e.Opt == "" {
+			e.Opt = t.mapStringToNoneTerminal(s, "opt")
+		}
+
 		return e.Opt
 	}
 
@@ -478,6 +483,11 @@ func (t *SymbolTable) GetGroup(s Strings) grammar.NonTerminal {
 
 	e, ok := t.strings.table.Get(s)
 	if ok {
+		// The entry may have been created for another construct over the same strings (e.g. a group).
+		if e.Group == "" {
+			e.Group = t.mapStringToNoneTerminal(s, "group")
+		}
+
 		return e.Group
 	}
 
@@ -497,6 +507,11 @@ func (t *SymbolTable) GetStar(s Strings) grammar.NonTerminal {
 
 	e, ok := t.strings.table.Get(s)
 	if ok {
+		// The entry may have been created for another construct over the same strings (e.g. a group).
+		if e.Star == "" {
+			e.Star = t.mapStringToNoneTerminal(s, "star")
+		}
+
 		return e.Star
 	}
 
@@ -516,6 +531,11 @@ func (t *SymbolTable) GetPlus(s Strings) grammar.NonTerminal {
 
 	e, ok := t.strings.table.Get(s)
 	if ok {
+		// The entry may have been created for another construct over the same strings (e.g. a group).
+		if e.Plus == "" {
+			e.Plus = t.mapStringToNoneTerminal(s, "plus")
+		}
+
 		return e.Plus
 	}
 
